@@ -26,8 +26,7 @@ THEOREMS = [
     "Ffcx.Jit.fail_releases_lock",
     "Ffcx.Jit.kill_safe",
     "Ffcx.Jit.marker_after_compile",
-    "Ffcx.Jit.globals_restored_partial",
-    "Ffcx.Jit.globals_restored_counterexample",
+    "Ffcx.Jit.globals_restored",
 ]
 
 B = sched.BUILDER_OPS  # lock gen swap src obj link1 link2 unredir mark restore find load
@@ -101,6 +100,43 @@ def make_fail_oracle(op, rel_index):
                 c14.report(chk, f"fail:{op}:late-request", f"the late request ended as {sc.status(2)} compiles={st2.compiles}", payload)
 
     return oracle
+
+
+def make_retry_oracle(op):
+    """Request 0 fails at `op`, raises, and the same process asks again: it must find its globals as
+    they were, build afresh and get correct kernels; a later request reuses the module."""
+
+    def oracle(chk, sc, schedule, late_pids):
+        payload = generic_oracle(chk, sc, schedule, late_pids)
+        payload["fault"] = f"fail at {op}, then the same process asks again"
+        st0 = sc.procs[0]
+        k = next((i for i, t in enumerate(sc.trace) if t[0] == 0 and t[1] == "again"), None)
+        if k is None or not st0.history or st0.history[0][0] != "raised":
+            c14.report(chk, f"fail:{op}:not-raised", f"first request ended as {st0.history[:1]}", payload)
+            return
+        _, _, _, h, s = sc.trace[k]
+        if h != "user":
+            c14.report(chk, fail_key(op, "handlers"), f"the next request of the same process starts with the capture handler installed ({op} failed)", payload)
+        if s != "user":
+            c14.report(chk, fail_key(op, "stdout"), f"the next request of the same process starts with sys.stdout redirected ({op} failed)", payload)
+        if not (st0.finished and st0.outcome[0] == "done" and st0.outcome[1]):
+            c14.report(chk, f"fail:{op}:retry-failed", f"the retry of the same process ended as {sc.status(0)}", payload)
+        if sc.trace[-1][3:] != ("user", "user"):
+            c14.report(chk, "globals:after-retry", f"globals after the retry: {sc.trace[-1][3:]}", payload)
+        st1 = sc.procs[1]
+        if st1.finished and not (st1.outcome[0] == "done" and not st1.outcome[1]):
+            c14.report(chk, f"fail:{op}:late-request", f"the later request ended as {sc.status(1)}", payload)
+
+    return oracle
+
+
+def retry_after_timeout_oracle(chk, sc, schedule, late_pids):
+    payload = generic_oracle(chk, sc, schedule, late_pids)
+    st1 = sc.procs[1]
+    if not (st1.history and st1.history[0][0] == "raised" and isinstance(st1.history[0][1], TimeoutError)):
+        c14.report(chk, "timeout:not-raised", f"waiter behind a stalled builder ended as {st1.history[:1]}", payload)
+    elif not (st1.finished and st1.outcome[0] == "done" and not st1.outcome[1]):
+        c14.report(chk, "timeout:retry-failed", f"the retry after the timeout ended as {sc.status(1)}", payload)
 
 
 def make_kill_oracle(op):
@@ -218,7 +254,7 @@ def run(chk):
     ]
     chk.assumptions += [
         "a killed process leaves every file as written so far (no torn directory entries)",
-        "globals_restored is proved only for the exits other than 'ffibuilder.compile raised' (counterexample proved)",
+        "one model process issues its requests one after the other (choice `again`); threads inside one process are not modelled",
     ]
     chk.lean("FfcxProofs.C15", THEOREMS, extra_files=c14.LEAN_FILES)
 
@@ -239,14 +275,29 @@ def run(chk):
                     # -- every fail point x every position of the builder's release among the later request's steps
                     for op in FAIL_OPS:
                         pre = [(0, "none")] * B.index(op) + [(0, "fail")]
+                        # what the failing request still does: (restore handlers in `finally`,) release
+                        rest = [(0, "none")] * (1 if op == "gen" else 2)
                         for j in range(K + 1):
-                            schedule = pre + [(1, "none")] * j + [(0, "none")] + [(1, "none")] * (K - j) + late
+                            schedule = pre + [(1, "none")] * j + rest + [(1, "none")] * (K - j) + late
                             c14.run_one(chk, P, d, root, idx, 3, timeout, schedule, kind="fail-point",
                                         key=f"t{timeout}:fail@{op}:release-after-{j}", oracle=make_fail_oracle(op, j))
                             idx += 1
+                        if op != "gen":  # the later request moves between `restore` and `release`
+                            for j1 in range(3):
+                                for j2 in range(1, 4):
+                                    schedule = (pre + [(1, "none")] * j1 + [(0, "none")] + [(1, "none")] * j2 + [(0, "none")]
+                                                + [(1, "none")] * K + late)
+                                    c14.run_one(chk, P, d, root, idx, 3, timeout, schedule, kind="fail-point",
+                                                key=f"t{timeout}:fail@{op}:restore-{j1}-release-{j2}", oracle=make_fail_oracle(op, j1))
+                                    idx += 1
+                        # the same process asks again after its failed request
+                        schedule = pre + rest + [(0, "again")] + [(0, "none")] * 12 + c14.completion([1], timeout + 4)
+                        c14.run_one(chk, P, d, root, idx, 3, timeout, schedule, kind="retry-after-fail",
+                                    key=f"t{timeout}:fail@{op}:again", oracle=make_retry_oracle(op))
+                        idx += 1
                         # a waiter that arrived before the failure keeps polling and times out / is served by nobody
                         for k0 in range(1, B.index(op) + 1):
-                            schedule = [(0, "none")] * k0 + [(1, "none")] + [(0, "none")] * (B.index(op) - k0) + [(0, "fail"), (0, "none")]
+                            schedule = [(0, "none")] * k0 + [(1, "none")] + [(0, "none")] * (B.index(op) - k0) + [(0, "fail")] + rest
                             schedule += c14.completion([1, 2], K)
                             c14.run_one(chk, P, d, root, idx, 3, timeout, schedule, kind="fail-point-early-waiter",
                                         key=f"t{timeout}:fail@{op}:waiter-after-{k0}", oracle=generic_oracle)
@@ -265,6 +316,11 @@ def run(chk):
                             c14.run_one(chk, P, d, root, idx, 3, timeout, schedule, kind="kill-point-early-waiter",
                                         key=f"t{timeout}:kill@{op}:waiter-after-{k0}", oracle=generic_oracle)
                             idx += 1
+                    # a waiter times out behind a stalled builder, the builder finishes, the waiter asks again
+                    schedule = [(0, "none")] + [(1, "none")] * (timeout + 1) + [(0, "none")] * 11 + [(1, "again")] + [(1, "none")] * 5
+                    c14.run_one(chk, P, d, root, idx, 2, timeout, schedule, kind="retry-after-timeout",
+                                key=f"t{timeout}:timeout:again", oracle=retry_after_timeout_oracle)
+                    idx += 1
                     # kill of a waiter / of a request that has not arrived: nobody else is affected
                     for pre in ([(0, "none"), (1, "kill")], [(0, "none"), (1, "none"), (1, "kill")], [(0, "none"), (1, "none"), (1, "none"), (1, "kill")]):
                         schedule = list(pre) + c14.completion([0, 2], 13)
@@ -283,7 +339,7 @@ def run(chk):
                     for _ in range(L):
                         p = rng.choices(range(n), weights=w)[0]
                         r = rng.random()
-                        schedule.append((p, "fail" if r < pf else ("kill" if r < pf + pk else "none")))
+                        schedule.append((p, "fail" if r < pf else ("kill" if r < pf + pk else ("again" if r < pf + pk + 0.06 else "none"))))
                     if rng.random() < 0.6:
                         schedule += c14.completion(range(n), timeout + 13)
                     faults = [c for _, c in schedule if c != "none"]
